@@ -56,11 +56,11 @@ theorem readSysex_enc (clip : Bool) (d lb rest : List Nat) (hd : d.all (· ≤ 1
   rw [hstrip]
   cases clip <;> simp [getLast?_concat, dropLast_concat, hd, pure, Except.pure, clip_valid d hd]
 
-theorem readMeta_enc (cs : Charset) (hcs : cs ≠ .utf8) (mm : MetaMsg) (hc : mm.check = .ok ()) (hn : mm.normal = true)
+theorem readMeta_enc (cs : Charset) (mm : MetaMsg) (hc : mm.check = .ok ()) (hn : mm.normal = true)
     (p lb rest : List Nat) (hp : metaPayload cs mm = .ok p) (hl : VlqDenotes lb 0 p.length)
     (hmax : p.length ≤ maxMessageLength) :
     readMeta cs ([mm.ty.typeByte] ++ lb ++ p ++ rest) = .ok (.metaEv mm, rest) := by
-  obtain ⟨_, hd⟩ := C09_payload_roundtrip cs hcs mm hc hn p hp
+  obtain ⟨_, hd⟩ := C09_payload_roundtrip cs mm hc hn p hp
   simp only [readMeta, singleton_append, cons_append, nil_append, append_assoc, readVlq_denotes lb _ hl, bind, Except.bind,
     readBytes_append _ _ hmax, buildMeta, ofByte_typeByte, hd, Except.map, pure, Except.pure]
 
@@ -107,7 +107,7 @@ theorem encode_status_shape (m : Msg) (hv : m.Valid) (hns : ∀ d, m ≠ .sysex 
 
 /-- **One event of any conformant spelling is read back**, clip on or off; the reader's remembered
     status stays coupled to the standard's running status. -/
-theorem readEvent_enc (cs : Charset) (hcs : cs ≠ .utf8) (clip : Bool) (rs last : Option Nat)
+theorem readEvent_enc (cs : Charset) (clip : Bool) (rs last : Option Nat)
     (hc : Coupled rs last) (hr : RunOK rs) (ev : FEv) (eb : List Nat) (he : EncEv cs rs ev eb)
     (db : List Nat) (n : Nat) (hd : VlqDenotes db 0 n) (rest : List Nat) :
     ∃ last', readEvent cs clip last (db ++ eb ++ rest) = .ok (⟨ev, n⟩, rest, last') ∧
@@ -195,7 +195,7 @@ theorem readEvent_enc (cs : Charset) (hcs : cs ≠ .utf8) (clip : Bool) (rs last
     simp only [bind, Except.bind, cons_append, nil_append, append_assoc]
     have h1 : ¬ ((0xff : Nat) < 0x80) := by decide
     simp only [h1, if_false, if_true]
-    have := readMeta_enc cs hcs mm hcheck hnorm p lb rest hp hl hmax
+    have := readMeta_enc cs mm hcheck hnorm p lb rest hp hl hmax
     simp only [singleton_append, cons_append, nil_append, append_assoc] at this ⊢
     rw [this]; rfl
   | unknownMeta tb data lb hu hl hmax =>
@@ -210,7 +210,7 @@ theorem readEvent_enc (cs : Charset) (hcs : cs ≠ .utf8) (clip : Bool) (rs last
     rw [this]; rfl
 
 /-- **A track body of any conformant spelling is read back** (size-counted loop, clip on or off). -/
-theorem readEvents_enc (cs : Charset) (hcs : cs ≠ .utf8) (clip : Bool) (rs : Option Nat) (evs : List LEvent)
+theorem readEvents_enc (cs : Charset) (clip : Bool) (rs : Option Nat) (evs : List LEvent)
     (body : List Nat) (hb : EncBody cs rs evs body) : ∀ (last : Option Nat) (consumed fuel size : Nat) (rest : List Nat),
     Coupled rs last → RunOK rs → consumed + body.length = size → evs.length < fuel →
     readEvents cs clip size fuel consumed last (body ++ rest) = .ok (evs, rest) := by
@@ -222,7 +222,7 @@ theorem readEvents_enc (cs : Charset) (hcs : cs ≠ .utf8) (clip : Bool) (rs : O
     simp [readEvents, hsz]
   | cons rs e db eb es R hd he _ ih =>
     intro last consumed fuel size rest hc hr hsz hf
-    obtain ⟨last', hre, hc', hr', hbne⟩ := readEvent_enc cs hcs clip rs last hc hr e.ev eb he db e.delta hd (R ++ rest)
+    obtain ⟨last', hre, hc', hr', hbne⟩ := readEvent_enc cs clip rs last hc hr e.ev eb he db e.delta hd (R ++ rest)
     obtain ⟨f, rfl⟩ : ∃ f, fuel = f + 1 := ⟨fuel - 1, by simp at hf; omega⟩
     have hne : consumed ≠ size := by
       have : 0 < eb.length := length_pos_iff.mpr hbne
@@ -244,7 +244,7 @@ theorem encBody_length (cs : Charset) (rs : Option Nat) (evs : List LEvent) (bod
     have : 0 < db.length := length_pos_iff.mpr this
     simp only [length_cons, length_append]; omega
 
-theorem readTrack_enc (cs : Charset) (hcs : cs ≠ .utf8) (clip : Bool) (evs : List LEvent) (bytes : List Nat)
+theorem readTrack_enc (cs : Charset) (clip : Bool) (evs : List LEvent) (bytes : List Nat)
     (ht : EncTrack cs evs bytes) (rest : List Nat) :
     readTrack cs clip (bytes ++ rest) = .ok (evs, rest) := by
   cases ht with
@@ -256,25 +256,25 @@ theorem readTrack_enc (cs : Charset) (hcs : cs ≠ .utf8) (clip : Bool) (evs : L
     have hd8 : (mtrk ++ u32be body.length ++ body ++ rest).drop 8 = body ++ rest := by simp [mtrk, u32be]
     rw [if_neg h8, ht]
     simp only [ne_eq, not_true_eq_false, if_false, hd4, hd8, be32_u32be _ hlen]
-    exact readEvents_enc cs hcs clip none evs body hb none 0 _ body.length rest (fun s h => by cases h)
+    exact readEvents_enc cs clip none evs body hb none 0 _ body.length rest (fun s h => by cases h)
       (fun s h => by cases h) (by simp) (by
         have := encBody_length cs none evs body hb
         simp only [length_append]; omega)
 
-theorem readTracks_enc (cs : Charset) (hcs : cs ≠ .utf8) (clip : Bool) (ts : List (List LEvent)) (bytes : List Nat)
+theorem readTracks_enc (cs : Charset) (clip : Bool) (ts : List (List LEvent)) (bytes : List Nat)
     (h : EncTracks cs ts bytes) : readTracks cs clip ts.length bytes = .ok ts := by
   induction h with
   | nil => rfl
   | cons t ts a b ha _ ih =>
-    simp only [length_cons, readTracks, bind, Except.bind, readTrack_enc cs hcs clip t a ha b, ih, pure, Except.pure]
+    simp only [length_cons, readTracks, bind, Except.bind, readTrack_enc cs clip t a ha b, ih, pure, Except.pure]
 
 /-- **A file of any conformant spelling is read back**: header chunk of 6 or more bytes, padded
     quantities, running status wherever allowed, clip on or off. -/
-theorem readFile_enc (cs : Charset) (hcs : cs ≠ .utf8) (clip : Bool) (f : LFile) (bytes : List Nat)
+theorem readFile_enc (cs : Charset) (clip : Bool) (f : LFile) (bytes : List Nat)
     (h : EncFile cs f bytes) : readFile cs clip bytes = .ok f := by
   cases h with
   | mk t1 t2 n1 n2 d1 d2 extra chunks ht hn hd hx hc =>
-    have hrt := readTracks_enc cs hcs clip f.tracks chunks hc
+    have hrt := readTracks_enc cs clip f.tracks chunks hc
     have hsz := be32_u32be (6 + extra.length) hx
     unfold readFile
     have h8 : ¬ ((mthd ++ u32be (6 + extra.length) ++ [t1, t2, n1, n2, d1, d2] ++ extra ++ chunks).length < 8) := by
@@ -320,7 +320,7 @@ theorem writeEvent_enc (cs : Charset) (ev : FEv) (hst : StorableEv cs ev) (runni
     EncEv cs running ev bs ∧ running' = rsAfter ev := by
   cases ev with
   | metaEv mm =>
-    obtain ⟨hcheck, hnorm, hcs, hlen⟩ := hst
+    obtain ⟨hcheck, hnorm, hlen⟩ := hst
     simp only [writeEvent, bind, Except.bind] at hw
     cases hb : metaBytes cs mm with
     | error e => rw [hb] at hw; cases hw
@@ -412,10 +412,10 @@ theorem writeEvents_enc (cs : Charset) (evs : List TEvent) : ∀ (running : Opti
         exact .cons running (TEvent.toL e) (encVlq n) b _ R (htl ▸ denotes_encVlq n) (hev ▸ henc) (hev ▸ hR)
 
 /-- the chunk written by `write_track` is a conformant track chunk of `fix_end_of_track(track)` -/
-theorem writeTrack_enc (cs : Charset) (hcs : cs ≠ .utf8) (tr : List TEvent) (hst : ∀ e ∈ tr, StorableT cs e)
+theorem writeTrack_enc (cs : Charset) (tr : List TEvent) (hst : ∀ e ∈ tr, StorableT cs e)
     (bytes : List Nat) (hw : writeTrack cs tr = .ok bytes) (hfit : bytes.length < 4294967296) :
     EncTrack cs (normTrack tr) bytes := by
-  obtain ⟨fixed, hfix, hfs⟩ := fixEot_storable cs hcs tr 0 hst
+  obtain ⟨fixed, hfix, hfs⟩ := fixEot_storable cs tr 0 hst
   have hfix0 : fixEotEvents (.int 0) tr = .ok fixed := by simpa using hfix
   have hall : tr.all timeOk = true := by
     apply all_eq_true.mpr; intro e he
@@ -431,7 +431,7 @@ theorem writeTrack_enc (cs : Charset) (hcs : cs ≠ .utf8) (tr : List TEvent) (h
     simp only [normTrack, hfix0]
     exact .mk _ body this hlen
 
-theorem writeTracks_enc (cs : Charset) (hcs : cs ≠ .utf8) (trs : List (List TEvent)) :
+theorem writeTracks_enc (cs : Charset) (trs : List (List TEvent)) :
     ∀ (bytes : List Nat), (∀ tr ∈ trs, ∀ e ∈ tr, StorableT cs e) →
     (∀ tr ∈ trs, ∀ b, writeTrack cs tr = .ok b → b.length < 4294967296) →
     writeTracks cs trs = .ok bytes → EncTracks cs (trs.map normTrack) bytes := by
@@ -449,7 +449,7 @@ theorem writeTracks_enc (cs : Charset) (hcs : cs ≠ .utf8) (trs : List (List TE
       | ok b =>
         rw [hb] at hw; simp only [pure, Except.pure, Except.ok.injEq] at hw; subst hw
         simp only [map_cons]
-        exact .cons _ _ a b (writeTrack_enc cs hcs t (hst t (by simp)) a ha (hfit t (by simp) a ha))
+        exact .cons _ _ a b (writeTrack_enc cs t (hst t (by simp)) a ha (hfit t (by simp) a ha))
           (ih b (fun tr h => hst tr (mem_cons_of_mem _ h)) (fun tr h => hfit tr (mem_cons_of_mem _ h)) hb)
 
 theorem enc16_i16be (v : Int) (bs : List Nat) (h : i16be v = .ok bs) : ∃ a b, bs = [a, b] ∧ Enc16 v a b := by
